@@ -124,6 +124,11 @@ def search(job):
                           ({"items": {"oneOf": [{"type": "string"}, {"type": "integer", "minimum": 5}]}}, [1, "a", 7]),
                           ({"properties": {"a": False, "b": {"type": "string"}}}, {"a": 1, "b": 2}),
                           ({"anyOf": [False, {"type": "string"}]}, 1),
+                          # several root-level keywords failing at once, weak (anyOf / oneOf) and strong, in both orders: module validate raises best_match
+                          ({"oneOf": [{"type": "integer"}, {"minimum": 0}], "maximum": 10}, 12), ({"maximum": 10, "oneOf": [{"type": "integer"}, {"minimum": 0}]}, 12),
+                          ({"anyOf": [{"type": "string"}, {"maximum": 3}], "minimum": 20, "type": "integer"}, 12), ({"type": "string", "anyOf": [{"minimum": 20}, {"type": "null"}]}, 12),
+                          ({"oneOf": [{"type": "integer"}, {"type": "number"}], "enum": [1, 2]}, 12), ({"not": {"type": "integer"}, "maximum": 3}, 12),
+                          ({"properties": {"a": {"type": "string"}}, "required": ["b"], "oneOf": [{"type": "object"}, {"minProperties": 1}]}, {"a": 1}),
                           ({"pattern": "("}, 1), ({"type": 12}, 1), ({"minimum": "x"}, 1)]:
             tried += 1
             try:
